@@ -761,7 +761,7 @@ enum FoundMacro {
 
 /// Find the next instance of the named macro in a stream of tokens
 fn find_single_macro(
-    tokens: &[PreprocessToken],
+    tokens: &mut [PreprocessToken],
     search_pos: MacroSearchPosition,
     macros: &[Macro],
     macro_disabled: &mut [bool],
@@ -775,8 +775,21 @@ fn find_single_macro(
                 return Ok(FoundMacro::Defined(i));
             }
 
+            // A name that was encountered while its macro was being expanded is never expanded
+            if tokens[i].is_no_expand() {
+                i += 1;
+                continue;
+            }
+
             for macro_index in 0..macros.len() {
                 if macro_disabled[macro_index] {
+                    // Remember that we saw the name while the macro was disabled
+                    // Otherwise it would be expanded when the tokens are examined again in an outer expansion
+                    // and each level of nesting would multiply the output of a self referential macro
+                    if id.0 == macros[macro_index].name {
+                        tokens[i].set_no_expand();
+                        break;
+                    }
                     continue;
                 }
                 if search_pos.last_macro_function_index == macro_index && i < search_pos.next_pos {
